@@ -66,12 +66,24 @@ def _c13(ctx):
     return out
 
 
+def _t3(ctx, classes, floor):
+    from .rules import tab
+    r, n = tab.rule_T3(ctx, classes)
+    r.floor('alphabets and size relations', n, floor)
+    return r
+
+
 def _c04(ctx):
-    return _exc_rules(ctx, 'C04', with_lookup=False)
+    from .rules import tab
+    out = _exc_rules(ctx, 'C04', with_lookup=False)
+    r, n = tab.rule_T4(ctx)
+    r.floor('constant relations', n, 10)
+    out.append(r)
+    return out
 
 
 def _c05(ctx):
-    return _exc_rules(ctx, 'C05')
+    return _exc_rules(ctx, 'C05') + [_t3(ctx, {'MGRS'}, 25)]
 
 
 def _c10(ctx):
@@ -81,10 +93,48 @@ def _c10(ctx):
 
 
 def _c18(ctx):
-    return _exc_rules(ctx, 'C18')
+    return _exc_rules(ctx, 'C18') + [_t3(ctx, {'Geohash', 'GARS', 'Georef', 'OSGB'}, 22)]
+
+
+def _t1(ctx, family, tags=None, floor=1, keep=None):
+    from .rules import tab
+    r, n = tab.rule_T1(ctx, family, tags, keep=keep)
+    r.floor('active monomials (%s)' % family, n, floor)
+    r.assumptions.append('necessary condition only: mutually consistent tables need not be the right series')
+    return r
+
+
+def _c01(ctx):
+    return [_t1(ctx, 'geodesic', {'A1m1f', 'C1f', 'C1pf', 'A3coeff', 'C3coeff'}, 60)]
+
+
+def _c03(ctx):
+    return [_t1(ctx, 'geodesic', {'A2m1f', 'C2f', 'C4coeff'}, 60)]
+
+
+def _c06(ctx):
+    return [_t1(ctx, 'tm', None, 40)]
+
+
+def _c09(ctx):
+    used = {0, 1, 3, 4}     # phi, beta, mu, chi: the auxiliary latitudes the rhumb code converts between
+
+    def keep(m):
+        return m[0] in ('rm', 'c2') or (m[0] == 'aux' and m[1] in used and m[2] in used)
+    return [_t1(ctx, 'rhumb', None, 18), _t1(ctx, 'aux', None, 150, keep=keep)]
+
+
+def _c15(ctx):
+    from .rules import tab
+    return [_t1(ctx, 'aux', None, 450), tab.rule_T2(ctx)]
 
 
 CHECKS = {
+    'C01': _c01,
+    'C03': _c03,
+    'C06': _c06,
+    'C09': _c09,
+    'C15': _c15,
     'C04': _c04,
     'C05': _c05,
     'C10': _c10,
